@@ -202,12 +202,12 @@ def reject_at(info):
 
 
 OBSERVATIONS = [
-    ("no canonical refs/rad/id advertised (was: panic in CanonicalId::prepare_updates, stage.rs:204; fixed bdf629f)",
+    ("no canonical refs/rad/id advertised (was: panic in CanonicalId::prepare_updates, stage.rs:204; fixed 76abef2)",
      {"mode": "clone", "delegates": [1], "threshold": 1, "local": 0, "blocked": [], "followAll": True, "followed": [],
       "useRefsAt": False, "refsAt": [], "canon": False,
       "srv": [{"sig": {"ver": "v1", "fl": "ok"}, "rid": "i1", "junk": "none"}, {"sig": {"ver": "v2", "fl": "ok"}, "rid": "i2", "junk": "none"}],
       "loc": [{"ver": "none", "fl": "ok"}, {"ver": "none", "fl": "ok"}]}),
-    ("signed refs list a name that is not qualified (was: panic in DataRefs::prepare_updates, stage.rs:471; fixed 3721b83)",
+    ("signed refs list a name that is not qualified (was: panic in DataRefs::prepare_updates, stage.rs:471; fixed e471139)",
      {"mode": "clone", "delegates": [1], "threshold": 1, "local": 0, "blocked": [], "followAll": True, "followed": [],
       "useRefsAt": False, "refsAt": [], "canon": True,
       "srv": [{"sig": {"ver": "v1", "fl": "ok"}, "rid": "i1", "junk": "none"}, {"sig": {"ver": "v2", "fl": "unqual"}, "rid": "i2", "junk": "none"}],
